@@ -873,23 +873,30 @@ void start_impl(const void *context, const GraphView &graph,
   state.cycle_wall_start = current_wall_time();
   std::size_t started_nodes = 0;
   auto rollback = UnwindCleanupGuard([&] {
+    // Best-effort, like stop_impl: a node whose stop throws during the
+    // rollback must not keep the nodes started before it from being stopped.
+    // The start failure that triggered the rollback is the error the caller
+    // sees; failures recorded here are dropped.
+    FirstExceptionRecorder rollback_failures;
     for (std::size_t index = started_nodes; index > 0; --index) {
-      NodeView node_view = graph_node_view(runtime, graph.data(), index - 1);
-      bool notify_after = false;
-      auto after_notify = make_scope_exit<true>([&] {
-        if (notify_after) {
-          state.lifecycle_observers->notify_after_stop_node(node_view);
-        }
+      rollback_failures.capture([&] {
+        NodeView node_view = graph_node_view(runtime, graph.data(), index - 1);
+        bool notify_after = false;
+        auto after_notify = make_scope_exit<true>([&] {
+          if (notify_after) {
+            state.lifecycle_observers->notify_after_stop_node(node_view);
+          }
+        });
+        auto failed_notify = UnwindCleanupGuard([&] {
+          state.lifecycle_observers->notify_stop_node_failed(node_view);
+        });
+        state.lifecycle_observers->notify_before_stop_node(node_view);
+        // HideExceptions: a buggy observer must not mask the rollback itself,
+        // nor terminate() by throwing a second exception during unwind.
+        notify_after = true;
+        node_view.stop(state.evaluation_time);
+        failed_notify.release();
       });
-      auto failed_notify = UnwindCleanupGuard([&] {
-        state.lifecycle_observers->notify_stop_node_failed(node_view);
-      });
-      state.lifecycle_observers->notify_before_stop_node(node_view);
-      // HideExceptions: a buggy observer must not mask the rollback itself,
-      // nor terminate() by throwing a second exception during unwind.
-      notify_after = true;
-      node_view.stop(state.evaluation_time);
-      failed_notify.release();
     }
     state.next_scheduled_time = MAX_DT;
     state.started = false;
